@@ -368,6 +368,22 @@ def finish(pid: str, tier: str, seed: int, t0: float, ps: Optional[ProofStatus],
             known_hits[v.key] = known_hits.get(v.key, 0) + 1
         else:
             new_violations.append(v)
+    # safety net of the verdict protocol: a broken theorem, a failed build of the model, a hygiene failure or a
+    # model/implementation disagreement must never be hidden behind known-finding hits - if the check itself did
+    # not turn it into a violation, it is reported here as `no-failing-input-found`
+    if not new_violations:
+        what = None
+        if ps is not None and ps.broken:
+            what = ps.broken
+        elif not build.model_ok:
+            what = "model executable could not be built"
+        elif build_hygiene_cache():
+            what = "hygiene gate: " + "; ".join(build_hygiene_cache())
+        elif oc.correspondence_breaks:
+            what = "correspondence of the model with the implementation: " + json.dumps(oc.correspondence_breaks[0], default=str)[:600]
+        if what is not None:
+            new_violations.append(Violation(key=f"{pid.lower()}:unproved", what=what, no_failing_input=True,
+                                            replay={"broken": what, "searched": f"{oc.evaluations} cases; every disagreement found belongs to a recorded known finding"}))
     lines = []
     for k, n in sorted(known_hits.items()):
         lines.append(f"KNOWN-FINDING: property={pid} {known_keys[k]['what']} [{k}; {n} case(s) this run]")
